@@ -41,7 +41,7 @@ def make_eval_trace(job):
         for _ in range(nops):
             op = g.next_op()
             ev = w.apply(op, deep=opts.get("deep", True))
-            g.update(op, ev["res"])
+            g.update(op, ev["res"], ev)
             evs.append(ev)
         if opts.get("final_sweep", True):
             # query every element at the end: what was cached earlier never
